@@ -28,11 +28,13 @@ CONSTANTS MaxM, MaxN,  \* largest shape
                        \* index pair per step with RandomElement (simulation of long write sequences)
           Group        \* 0: all write kinds; 1..4: one group of kinds (lets several TLC runs share the catalogue)
 
-VARIABLES shape, acc, trip, nwrites, last
+VARIABLES shape, acc, trip, nwrites, last,
+          kid          \* the nested container handed in most recently, which the caller still holds: its shape and dense meaning ([nr |-> 0, ...]: none).
+                       \* Parent and child are separate objects: a later write into one of them does not change the other (PokeKid below).
 
 Shapes == IF ShapeMode = "one" THEN {<<MaxM, MaxN>>} ELSE {<<m, n>> : m \in 1..MaxM, n \in 1..MaxN}
 
-vars == <<shape, acc, trip, nwrites, last>>
+vars == <<shape, acc, trip, nwrites, last, kid>>
 
 ---------------------------------------------------------------------------
 \* Python semantics of slice(start, stop, step).indices(n) followed by arange
@@ -61,7 +63,8 @@ Resolve(ix, n) ==
 SeqsUpTo(S, k) == UNION {[1..m -> S] : m \in 1..k}
 
 ArrForms(n) ==
-    IF IdxMode = "full"
+    IF IdxMode = "alias" THEN {[form |-> "arr", arr |-> [i \in 1..n |-> i - 1]]}        \* the identity index array
+    ELSE IF IdxMode = "full"
       THEN {[form |-> "arr", arr |-> s] : s \in SeqsUpTo(0..(n-1), 2)}
              \cup {[form |-> "arr", arr |-> [i \in 1..n |-> n - i]]}        \* reversed full range
       ELSE IF IdxMode = "sim"
@@ -69,10 +72,11 @@ ArrForms(n) ==
              \cup {[form |-> "arr", arr |-> [i \in 1..n |-> n - i]]}
       ELSE {[form |-> "arr", arr |-> s] : s \in SeqsUpTo(0..(n-1), 2)}
 
-IntForms(n) == {[form |-> "int", i |-> i] : i \in 0..(n-1)}
+IntForms(n) == IF IdxMode = "alias" THEN {[form |-> "int", i |-> 0]} ELSE {[form |-> "int", i |-> i] : i \in 0..(n-1)}
 
 SliceForms(n) ==
-    IF IdxMode \in {"full", "sim"}
+    IF IdxMode = "alias" THEN {[form |-> "slice", start |-> None, stop |-> None, step |-> None], [form |-> "slice", start |-> 1, stop |-> None, step |-> None]}
+    ELSE IF IdxMode \in {"full", "sim"}
       THEN {[form |-> "slice", start |-> a, stop |-> b, step |-> c] :
                a \in {None, 0, 1, 0 - 1}, b \in {None, 1, n, 0 - 1}, c \in {None, 2, 0 - 1}}
       ELSE {[form |-> "slice", start |-> None, stop |-> None, step |-> None],
@@ -133,11 +137,15 @@ AddBlock(a, rows, cols, blk, k) ==      \* k runs over 1..nr*nc
     ELSE LET i == (k - 1) \div nc   j == (k - 1) % nc
          IN AddBlock([a EXCEPT ![<<rows[i+1], cols[j+1]>>] = @ + blk[<<i, j>>]], rows, cols, blk, k + 1)
 
+NoKid == [nr |-> 0, nc |-> 0, acc |-> << >>]
+Nested == {"nested_full", "nested_dup", "nested_empty"}
+
 Init == /\ shape \in Shapes
         /\ acc = Zero(shape[1], shape[2])
         /\ trip = <<>>
         /\ nwrites = 0
         /\ last = [op |-> "init"]
+        /\ kid = NoKid
 
 \* a consistent write
 Write(rix, cix, kind, fam) ==
@@ -151,14 +159,24 @@ Write(rix, cix, kind, fam) ==
        /\ nwrites' = nwrites + 1
        /\ last' = [op |-> "write", rix |-> rix, cix |-> cix, kind |-> kind, fam |-> fam,
                    nr |-> nr, nc |-> nc, outcome |-> "ok"]
+       /\ kid' = IF kind \in Nested THEN [nr |-> nr, nc |-> nc, acc |-> BlockOf(kind, fam, nr, nc)] ELSE kid
        /\ UNCHANGED shape
+
+\* the caller writes a dense block (family fam, all rows and columns) into the child it still holds: the child's meaning changes, the parent's does not
+PokeKid(fam) ==
+    /\ nwrites < MaxWrites
+    /\ kid.nr > 0 /\ kid.nc > 0
+    /\ kid' = [kid EXCEPT !.acc = [p \in DOMAIN kid.acc |-> kid.acc[p] + Val(fam, p[1], p[2], kid.nc)]]
+    /\ nwrites' = nwrites + 1
+    /\ last' = [op |-> "poke", fam |-> fam]
+    /\ UNCHANGED <<shape, acc, trip>>
 
 \* value None: nothing happens
 WriteNone(rix, cix) ==
     /\ nwrites < MaxWrites
     /\ nwrites' = nwrites + 1
     /\ last' = [op |-> "none", rix |-> rix, cix |-> cix]
-    /\ UNCHANGED <<shape, acc, trip>>
+    /\ UNCHANGED <<shape, acc, trip, kid>>
 
 \* 1-D vector value of length n: numpy's atleast_2d turns it into a 1 x n block, so it is
 \* consistent exactly when there is one row index and n column indices
@@ -175,7 +193,7 @@ WriteVector(rix, cix, fam, n) ==
             ELSE UNCHANGED <<acc, trip>>
        /\ last' = [op |-> "vector", rix |-> rix, cix |-> cix, fam |-> fam, n |-> n,
                    outcome |-> IF ok THEN "ok" ELSE "rejected"]
-       /\ UNCHANGED shape
+       /\ UNCHANGED <<shape, kid>>
 
 \* any kind with a block of the wrong shape (dr, dc added to the right shape): rejected
 WriteBad(rix, cix, kind, fam, dr, dc) ==
@@ -188,7 +206,7 @@ WriteBad(rix, cix, kind, fam, dr, dc) ==
        /\ nwrites' = nwrites + 1
        /\ last' = [op |-> "bad", rix |-> rix, cix |-> cix, kind |-> kind, fam |-> fam,
                    nr |-> Len(rows) + dr, nc |-> Len(cols) + dc, outcome |-> "rejected"]
-       /\ UNCHANGED <<shape, acc, trip>>
+       /\ UNCHANGED <<shape, acc, trip, kid>>
 
 BadKinds == {"dense", "sparse_coo", "nested_full"}
 
@@ -198,12 +216,15 @@ KindsOf(g) == CASE g = 0 -> Kinds
                  [] g = 1 -> {"dense", "sparse_coo"}
                  [] g = 2 -> {"sparse_csr", "sparse_csc", "sparse_dup"}
                  [] g = 3 -> {"nested_full", "nested_dup", "nested_empty"}
+                 [] g = 5 -> {"nested_full", "dense"}          \* aliasing histories: nested containers, later writes into parent and child
                  [] OTHER -> {}
+FamsOf(g) == IF g = 5 THEN {"pos"} ELSE Fams
 
 Next ==
     /\ nwrites < MaxWrites
     /\ \E rix \in Sel(IdxForms(shape[1])), cix \in Sel(IdxForms(shape[2])) :
-           \/ \E kind \in KindsOf(Group), fam \in Fams : Write(rix, cix, kind, fam)
+           \/ \E kind \in KindsOf(Group), fam \in FamsOf(Group) : Write(rix, cix, kind, fam)
+           \/ Group \in {0, 5} /\ PokeKid("pos")
            \/ Group \in {0, 4} /\ WriteNone(rix, cix)
            \/ Group \in {0, 4} /\ \E fam \in {"pos"}, n \in 1..2 : WriteVector(rix, cix, fam, n)
            \/ Group \in {0, 4} /\ \E kind \in BadKinds, d \in {<<1, 0>>, <<0, 1>>, <<0 - 1, 0>>} :
@@ -226,4 +247,8 @@ IndicesInRange == \A k \in 1..Len(trip) : trip[k][1] \in 0..(shape[1]-1) /\ trip
 RejectedUnchanged ==
     [][ (last'.op \in {"bad", "none"} \/ (last'.op = "vector" /\ last'.outcome = "rejected"))
           => (acc' = acc /\ trip' = trip) ]_vars
+\* a write into the child the caller still holds leaves the parent as it is, a write into the parent leaves the child as it is
+KidIndependent ==
+    [][ /\ (last'.op = "poke" => (acc' = acc /\ trip' = trip))
+        /\ ((last'.op # "poke" /\ ~(last'.op = "write" /\ last'.kind \in Nested)) => kid' = kid) ]_vars
 =============================================================================
